@@ -280,7 +280,7 @@ class Unit:
                  rec=False, flags=(), backends=("minisat",), canaries=(), bounded=None,
                  unwind=None, timeout=600, native=None, mode="c", tiers=("quick", "thorough"),
                  defines=None, trusted=(), assumptions=(), claim="", havoc_loops=False,
-                 expect_fail=(), object_bits=None, split=False, pre_inputs="", checks=None, ignore=None, unwinding_assertions=True, fallback_unwind=None, allow_nobody=r"^(nondet_|__CPROVER|floor$|sqrt$|fmax$|fmin$|fabs$)", nondet_static=False, extra_files=()):
+                 expect_fail=(), object_bits=None, split=False, pre_inputs="", checks=None, ignore=None, unwinding_assertions=True, native_ubsan=True, fallback_unwind=None, allow_nobody=r"^(nondet_|__CPROVER|floor$|sqrt$|fmax$|fmin$|fabs$)", nondet_static=False, extra_files=()):
         self.__dict__.update(locals())
         del self.__dict__["self"]
 
@@ -799,8 +799,8 @@ int main(void) { vf_load_witness(); vf_native(); if (vf_fail) { printf("REPLAY-R
 """)
     exe = os.path.join(d, "native")
     cc = "gcc" if unit.mode == "c" else "g++"
-    rc, out, _ = run([cc, "-DVF_NATIVE", "-O0", "-g", "-fsanitize=address,undefined", "-fno-sanitize-recover=undefined",
-                      "-w", src, "-o", exe, "-lm"], 300)
+    san = ["-fsanitize=address,undefined", "-fno-sanitize-recover=undefined"] if unit.native_ubsan else ["-fsanitize=address"]
+    rc, out, _ = run([cc, "-DVF_NATIVE", "-O0", "-g"] + san + ["-w", src, "-o", exe, "-lm"], 300)
     if rc != 0:
         return "unavailable", "native build failed: " + out[-1500:]
     rc, out, _ = run([exe], 60, limit=False)
